@@ -1,6 +1,7 @@
 import Nsq.Model.Line
 import Nsq.Model.ProtoV2
 import Nsq.Model.HttpApi
+import Nsq.Spec.ProtoSpec
 /-!
 Driver for engine E3 (proto): one operation per input line, one canonical answer line out.
 The broker and the tables persist across lines (a case is `reset` followed by operations).
@@ -11,6 +12,7 @@ The broker and the tables persist across lines (a case is `reset` followed by op
   reset
   io <conf> <hexstream>
   http <conf> <method> <hexpath> <hexquery> <contentLength|-1> <hexbody> <healthy>
+  spec <conf> <hexstream>
   name <hex> | b10 <hex> | pint <hex> | query <hex> | mpubtext <maxMsg> <maxBody> <hex>
 -/
 open Nsq Nsq.Line Nsq.Model.ProtoV2 Nsq.Model
@@ -97,6 +99,20 @@ partial def scanNeed (conf : Conf) (tbl : List (Bytes × Option IdentifyData))
       if stp.ctl == .cont then scanNeed conf tbl stp.st stp.broker stp.rest else none
   | _ => none
 
+/-- What the declarative table allows for each command of a connection, in order. The connection
+state is advanced with the model's `exec` (the table itself is evaluated on every command). -/
+partial def specWalk (conf : Conf) (s : ConnState) (bs : Bytes) (fuel : Nat) : List String :=
+  if fuel == 0 then [] else
+  match readLine bs with
+  | .line l rest =>
+    let ps := splitSp l
+    let al := Nsq.Spec.ProtoSpec.allowed conf s ps rest
+    let here := joinOr "," (al.map (fun a =>
+      s!"{match a.1 with | some r => showReply r | none => "-"}|{if a.2 then 1 else 0}"))
+    let stp := exec conf s [] ps rest
+    if stp.ctl == .cont then here :: specWalk conf stp.st stp.rest (fuel - 1) else [here]
+  | _ => []
+
 def parseInt (s : String) : Int := s.toInt?.getD 0
 
 def parseConf (w : List String) : Option (String × DConf) :=
@@ -161,6 +177,17 @@ def stepLine (st : DState) (line : String) : DState × String :=
         let conn := if r.fin == .eof then showConn r.st else "-"
         (st.setBroker cid r.broker,
          s!"R={joinOr "," (r.replies.map showReply)} E={showEnd r.fin} S={conn} B={showBroker r.broker}")
+    | _, _ => (st, "bad-op")
+  | ["spec", cid, h] =>
+    -- what the declarative table allows as the answer to the FIRST command of a fresh connection
+    match st.confs.find? (·.1 == cid), unhex h with
+    | some (_, dc), some bs =>
+      let tbl := st.json
+      let conf := { dc.conf with decode := fun body => (lookupJson tbl body).getD none }
+      let s0 := freshConn dc.hbNs dc.obtNs dc.mtNs
+      if bs.take 4 == magicV2 then
+        (st, "A=" ++ joinOr ";" (specWalk conf s0 (bs.drop 4) 64))
+      else (st, "A=-")
     | _, _ => (st, "bad-op")
   | ["http", cid, method, hp, hq, cl, hb, healthy] =>
     match st.confs.find? (·.1 == cid), unhex hp, unhex hq, unhex hb with
